@@ -57,9 +57,15 @@ func (r *FunctionData[T]) UpdateData(remoteWrite, persist bool, newData *T, filt
 	defer r.mux.Unlock()
 
 	if filterPartial == nil && filterDelete == nil && persist {
-		// just set the data
-		r.data = newData
-		return r.data, nil
+		// just set the data, but never keep or hand out the callers object
+		if newData == nil {
+			r.data = nil
+			return r.data, nil
+		}
+		storedData := *newData
+		r.data = &storedData
+		returnedData := storedData
+		return &returnedData, nil
 	}
 
 	if !r.SupportsPartialWrite() {
